@@ -276,8 +276,15 @@ func (b *Broker) RegisterNode(id NodeID, node Node, opt ...Option) error {
 // referencing those nodes
 func (b *Broker) RemoveNode(ctx context.Context, id NodeID) error {
 	b.lock.Lock()
-	defer b.lock.Unlock()
-	return b.removeNode(ctx, id, false)
+	node, err := b.detachNode(id, false)
+	b.lock.Unlock()
+	if err != nil {
+		return err
+	}
+
+	// Close the node without holding the lock, since closing a node can call
+	// back into the broker (e.g. to flush events).
+	return closeNode(ctx, id, node)
 }
 
 // removeNode will remove a node from the broker, if it is not currently  in use.
@@ -286,33 +293,51 @@ func (b *Broker) RemoveNode(ctx context.Context, id NodeID) error {
 // The force option can be used to decrement the count for the node if it's still in use by pipelines
 // This function assumes that the caller holds a lock
 func (b *Broker) removeNode(ctx context.Context, id NodeID, force bool) error {
+	node, err := b.detachNode(id, force)
+	if err != nil {
+		return err
+	}
+	return closeNode(ctx, id, node)
+}
+
+// detachNode does the bookkeeping of removeNode and returns the node when it
+// has been removed from the broker and must be closed by the caller (nil when
+// only its reference count was decremented).
+// This function assumes that the caller holds a lock
+func (b *Broker) detachNode(id NodeID, force bool) (Node, error) {
 	if id == "" {
-		return fmt.Errorf("unable to remove node, node ID cannot be empty: %w", ErrInvalidParameter)
+		return nil, fmt.Errorf("unable to remove node, node ID cannot be empty: %w", ErrInvalidParameter)
 	}
 
 	nodeUsage, ok := b.nodes[id]
 	if !ok {
-		return fmt.Errorf("%w: %q", ErrNodeNotFound, id)
+		return nil, fmt.Errorf("%w: %q", ErrNodeNotFound, id)
 	}
 
 	// if force is passed, then decrement the count for this node instead of failing
 	if nodeUsage.referenceCount > 0 && !force {
-		return fmt.Errorf("cannot remove node, as it is still in use by 1 or more pipelines: %q", id)
+		return nil, fmt.Errorf("cannot remove node, as it is still in use by 1 or more pipelines: %q", id)
 	}
 
-	var err error
 	switch nodeUsage.referenceCount {
 	case 0, 1:
-		nc := NewNodeController(nodeUsage.node)
-		if err = nc.Close(ctx); err != nil {
-			err = fmt.Errorf("unable to close node ID %q: %w", id, err)
-		}
 		delete(b.nodes, id)
+		return nodeUsage.node, nil
 	default:
 		nodeUsage.referenceCount--
+		return nil, nil
 	}
+}
 
-	return err
+// closeNode closes a node that was removed from the broker (nil is a no op).
+func closeNode(ctx context.Context, id NodeID, node Node) error {
+	if node == nil {
+		return nil
+	}
+	if err := NewNodeController(node).Close(ctx); err != nil {
+		return fmt.Errorf("unable to close node ID %q: %w", id, err)
+	}
+	return nil
 }
 
 // PipelineID is a string that uniquely identifies a Pipeline within a given EventType.
@@ -463,15 +488,16 @@ func (b *Broker) RemovePipelineAndNodes(ctx context.Context, t EventType, id Pip
 	}
 
 	b.lock.Lock()
-	defer b.lock.Unlock()
 
 	g, ok := b.graphs[t]
 	if !ok {
+		b.lock.Unlock()
 		return false, fmt.Errorf("no graph for EventType %s", t)
 	}
 
 	nodes, err := g.roots.Nodes(id)
 	if err != nil {
+		b.lock.Unlock()
 		return false, fmt.Errorf("unable to retrieve all nodes referenced by pipeline ID %q: %w", id, err)
 	}
 
@@ -479,9 +505,21 @@ func (b *Broker) RemovePipelineAndNodes(ctx context.Context, t EventType, id Pip
 
 	var nodeErr error
 
+	toClose := make(map[NodeID]Node, len(nodes))
 	for _, nodeID := range nodes {
-		err = b.removeNode(ctx, nodeID, true)
+		node, err := b.detachNode(nodeID, true)
 		if err != nil {
+			nodeErr = multierror.Append(nodeErr, err)
+			continue
+		}
+		toClose[nodeID] = node
+	}
+	b.lock.Unlock()
+
+	// Close the removed nodes without holding the lock, since closing a node
+	// can call back into the broker (e.g. to flush events).
+	for _, nodeID := range nodes {
+		if err := closeNode(ctx, nodeID, toClose[nodeID]); err != nil {
 			nodeErr = multierror.Append(nodeErr, err)
 		}
 	}
